@@ -156,7 +156,8 @@ def build_program(sites):
     co = fn.__code__
     ins = list(dis.get_instructions(co))
     states = []
-    table = [(a, b - 2, d) for a, b, _t, d, _l in dis._parse_exception_table(co)]
+    full = [(a, b - 2, t, d) for a, b, t, d, _l in dis._parse_exception_table(co)]
+    table = [(a, b, d) for a, b, _t, d in full]
     for s, st in enumerate(sites):
         exits = [10 + s * 3 + j + 1 for j in range(st["w"])]
         if st["k"] in ("lock", "unpack"):
@@ -187,7 +188,9 @@ def build_program(sites):
             slots += [T_NULL, T_KEEP] + [100 + i + 1 for i in range(st["a"])]
         states.append({"lasti": lasti, "top": len(slots) if st["k"] == "py" else None, "slots": slots})
     rets = [i.offset for i in ins if i.opname in ("RETURN_CONST", "RETURN_VALUE") and i.positions.lineno == retline]
-    prog = dict(src=src, fn=fn, ns=ns, states=states, table=table, stacksize=co.co_stacksize, ret_lasti=rets[0])
+    srclines = src.split("\n")
+    branch = [k + 1 for k, l in enumerate(srclines) if l.strip().startswith(("if nxt ==", "elif nxt =="))]
+    prog = dict(src=src, fn=fn, ns=ns, states=states, table=table, full=full, branch=branch, stacksize=co.co_stacksize, ret_lasti=rets[0])
     _PROG_CACHE[key] = prog
     return prog
 
@@ -415,7 +418,7 @@ def run_schedule(run: SnapRun, sched, call):
         elif tag == "snap:ok":
             st["ok_lasti"] = info["lasti"]
             st["site_at_ok"] = run.cur
-            return
+            key = (st["attempt"], "P6", 0)
         else:
             return
         mv = moves.get(key)
@@ -475,7 +478,7 @@ def run_snap(desc):
             valid = 0 if site == RET else len(run.prog["states"][site]["slots"])
             toks = [t if i < valid else 0 for i, t in enumerate(toks)]
             obs = {"cls": 0, "lasti": st["ok_lasti"], "stack": toks, "retries": st["retries"],
-                   "site_at_ok": site}
+                   "site_at_ok": site, "blocks": [[b.handler, b.level] for b in res.blocks]}
             del res
         elif isinstance(exc, AssertionError):
             obs = {"cls": 1, "lasti": 0, "stack": [], "retries": st["retries"]}
@@ -494,7 +497,7 @@ def _encoder(prog):
     its neighbours.  Strictly order-preserving, and the model only compares positions (<=, =), so nothing is lost;
     it keeps the unary nat literals of the cases files small."""
     import bisect
-    pos = sorted({x for a, b, _d in prog["table"] for x in (a, b)} | {st["lasti"] for st in prog["states"]}
+    pos = sorted({x for a, b, t, _d in prog["full"] for x in (a, b, t)} | {st["lasti"] for st in prog["states"]}
                  | {prog["ret_lasti"]})
     index = {x: 2 * k + 1 for k, x in enumerate(pos)}
 
@@ -511,20 +514,37 @@ def c_state(s, enc):
 def coq_snap(desc, obs):
     prog = build_program(desc["sites"])
     enc = _encoder(prog)
-    cfg = "(mkC %s %d SrcFacts.snapshot_retries %d SrcFacts.snapshot_header_check_adjacent SrcFacts.snapshot_slot_check_adjacent SrcFacts.snapshot_capture_to_check_no_call)" % (
-        clist("(%d, %d, %d)" % (enc(a), enc(b), d) for a, b, d in prog["table"]), prog["stacksize"], enc(prog["ret_lasti"]))
+    cfg = "(mkC %s %d SrcFacts.snapshot_retries %d SrcFacts.snapshot_header_check_adjacent SrcFacts.snapshot_slot_check_adjacent SrcFacts.snapshot_capture_to_check_no_call %s SrcFacts.snapshot_blocks_from_accepted)" % (
+        clist("(%d, %d, %d)" % (enc(a), enc(b), d) for a, b, d in prog["table"]), prog["stacksize"], enc(prog["ret_lasti"]),
+        clist(str(enc(t)) for _a, _b, t, _d in prog["full"]))
     if desc["init"] == RET:
         w = "(mkW (mkT %d (Some 0) []) InFrameObj)" % enc(prog["ret_lasti"])
     else:
         w = "(mkW %s OnThread)" % c_state(prog["states"][desc["init"]], enc)
     ms = []
     for a, p, i, mv in desc["sched"]:
-        pt = {"P1": "P1", "P1b": "P1b", "P2": "P2", "P5": "P5"}.get(p) or "(P3 %d)" % i
+        pt = {"P1": "P1", "P1b": "P1b", "P2": "P2", "P5": "P5", "P6": "P6"}.get(p) or "(P3 %d)" % i
         m = "Ret" if mv in (RET, RETX) else "(Goto %s)" % c_state(prog["states"][mv], enc)
         ms.append("(%d, %s, %s)" % (a, pt, m))
-    o = "(mkO %d %d %s %d)" % (obs["cls"], enc(obs["lasti"]) if obs["cls"] == 0 and obs["lasti"] is not None else 0,
-                               clist(str(t) for t in obs["stack"]), obs["retries"])
+    o = "(mkO %d %d %s %d %s)" % (obs["cls"], enc(obs["lasti"]) if obs["cls"] == 0 and obs["lasti"] is not None else 0,
+                                  clist(str(t) for t in obs["stack"]), obs["retries"],
+                                  clist("(%d, %d)" % (enc(h), l) for h, l in obs.get("blocks", [])))
     return "(%s, %s, %s, %s)" % (cfg, w, clist(ms), o)
+
+
+def expected_blocks(prog, pos):
+    """(handler, level) of the handlers active at code position pos, outermost first, from the stdlib-parsed
+    exception table: the entry covering pos, then the entry covering its handler, and so on."""
+    out, seen = [], set()
+    while pos not in seen:
+        seen.add(pos)
+        cover = [(a, b, t, d) for a, b, t, d in prog["full"] if a <= pos <= b]
+        if not cover:
+            break
+        _a, _b, t, d = cover[0]
+        out.append([t, d])
+        pos = t
+    return out[::-1]
 
 
 def oracle_snap(desc, obs):
@@ -545,6 +565,9 @@ def oracle_snap(desc, obs):
         want_lasti, full = prog["states"][site]["lasti"], prog["states"][site]["slots"]
     if obs["lasti"] != want_lasti:
         return "snapshot accepted for lasti %r while the frame was at %r" % (obs["lasti"], want_lasti)
+    if obs.get("blocks") != expected_blocks(prog, want_lasti):
+        return ("FrameDetails.blocks %r are not the handlers active at the accepted position %r (expected %r): stack and "
+                "blocks belong to different positions" % (obs.get("blocks"), want_lasti, expected_blocks(prog, want_lasti)))
     if 0 in obs["stack"] or len(obs["stack"]) > len(full):
         return "snapshot contains slots beyond the valid depth of its instruction position"
     if obs["stack"] != full[:len(obs["stack"])]:
@@ -575,7 +598,7 @@ def points_for(sites, attempts):
     maxd = max(s["w"] + (2 + s["a"] if s["a"] else 0) for s in sites)
     pts = []
     for a in attempts:
-        pts += [(a, "P1", 0), (a, "P2", 0)] + [(a, "P3", i) for i in range(maxd)] + [(a, "P5", 0)]
+        pts += [(a, "P1", 0), (a, "P2", 0)] + [(a, "P3", i) for i in range(maxd)] + [(a, "P5", 0), (a, "P6", 0)]
     return pts
 
 
@@ -989,18 +1012,32 @@ def leg_extract_racing():
     import warnings
     import stackscope
     viol, n = [], 0
-    sites = PROGRAMS[0]
-    for variant in ("exhaust", "one-retry", "return-midway"):
+    for variant in ("exhaust", "one-retry", "return-midway", "ok-A2-to-B1", "ok-A2-to-none", "ok-B1-to-A2", "ok-after-retry"):
+        sites = PROGRAMS[1] if variant.startswith("ok-") else PROGRAMS[0]
         run = SnapRun(sites)
         try:
-            run.goto(1 if variant != "exhaust" else 0)
             nn = len(sites)
             if variant == "exhaust":
+                run.goto(0)
                 sched = [(a, "P1", 0, (a + 1) % nn) for a in range(10)]
             elif variant == "one-retry":
+                run.goto(1)
                 sched = [(0, "P3", 1, 2)]
-            else:
+            elif variant == "return-midway":
+                run.goto(1)
                 sched = [(0, "P3", 2, RET)]
+            elif variant == "ok-A2-to-B1":      # accepted inside `with A1: with A2:`, then the target moves into `with B:`
+                run.goto(1)
+                sched = [(0, "P6", 0, 0)]
+            elif variant == "ok-A2-to-none":    # ... or to a position outside any with
+                run.goto(1)
+                sched = [(0, "P6", 0, 2)]
+            elif variant == "ok-B1-to-A2":
+                run.goto(0)
+                sched = [(0, "P6", 0, 3)]
+            else:
+                run.goto(3)
+                sched = [(0, "P3", 1, 1), (1, "P6", 0, 0)]
             own_codes = {run.prog["fn"].__code__, Ctl.park.__code__, Ctl.note.__code__}
             with warnings.catch_warnings(record=True) as wl, contextlib.redirect_stderr(io.StringIO()):
                 warnings.simplefilter("always")
@@ -1019,6 +1056,26 @@ def leg_extract_racing():
             if variant == "exhaust" and (st["retries"] != 10 or nwarn < 1):
                 viol.append({"what": "10 rejected snapshots did not end in an InspectionWarning (retries=%d, warnings=%d)"
                                      % (st["retries"], nwarn), "input": {"variant": variant}})
+            # every context reported for the target's frame must belong to ONE position: the manager object and
+            # the with statement (start_line) of each context, and all contexts together, lie in one branch
+            branch = run.prog["branch"]
+
+            def site_of_line(ln):
+                k = [i for i, b in enumerate(branch) if b <= ln]
+                return k[-1] if k else None
+            for f in res.frames:
+                if f.pyframe is not run.frame:
+                    continue
+                where = set()
+                for cx in f.contexts:
+                    so = (cx.obj.n - 1) // 3 if isinstance(cx.obj, CM) else ("?", repr(cx.obj))
+                    sl = site_of_line(cx.start_line) if cx.start_line is not None else ("?", None)
+                    where.add(so)
+                    where.add(sl)
+                if len(where) > 1:
+                    viol.append({"what": "extract(thread): the contexts of one frame mix positions (manager objects and with "
+                                         "statements of different with-blocks): %r" % [(getattr(cx.obj, "n", None), cx.start_line) for cx in f.contexts],
+                                 "input": {"variant": variant}})
             if variant != "exhaust" and nwarn:
                 viol.append({"what": "unexpected InspectionWarning under schedule " + variant, "input": {"variant": variant, "names": names}})
         finally:
